@@ -347,7 +347,7 @@ func TestC05(t *testing.T) {
 		t.Skip("needs the instrumented build")
 	}
 	st := statsFor("C05")
-	st.Rule = "a generated history (inserts, key-moving updates, deletes, batches, search-delete, DeleteAll, virtual-clock ticks that let the async flusher run, final Close) runs on a copy of the working tree whose os/ioutil calls are recorded per database root; the recorded log of file-system mutations (mkdir, open/create/truncate, every Write with its bytes, close, remove, rename) is cut at EVERY mutation boundary (exhaustive per history) and every Write is additionally torn at byte 1, the middle and the last byte; each prefix is materialised into a fresh directory and opened the way a restarting application does (Open, Create, use). Oracle per crash state: reopening reports nil or ErrIndexCorrupted, nothing else; every object file decodes (independent walker); if corruption is reported Repair and then Control succeed; then every read path and a search sweep over the indexed paths equal predicates on the decoded files; in synchronous mode every object on disk equals its value before or after the interrupted call (equal to the acknowledged state when the cut is at a call boundary). Evaluations = crash states. Non-trivial: the cut lies strictly inside an API call. Distinct by (program hash, cut, torn offset)."
+	st.Rule = "a generated history (inserts, key-moving updates, deletes, batches, search-delete, DeleteAll, virtual-clock ticks that let the async flusher run, final Close) runs on a copy of the working tree whose os/ioutil calls are recorded per database root; the recorded log of file-system mutations (mkdir, open/create/truncate, every Write with its bytes, close, remove, rename) is cut at EVERY mutation boundary (exhaustive per history) and every Write is additionally torn at byte 1, the middle and the last byte; each prefix is materialised into a fresh directory and opened the way a restarting application does (Open, Create, use). Oracle per crash state: reopening reports nil or ErrIndexCorrupted, nothing else; every object file decodes (independent walker); if corruption is reported Repair and then Control succeed; then every read path and a search sweep over the indexed paths equal predicates on the decoded files; when the crash left temporary files behind every object is then written again with a short value, read back and decoded from disk (leftovers must stay harmless); in synchronous mode every object on disk equals its value before or after the interrupted call (equal to the acknowledged state when the cut is at a call boundary). Evaluations = crash states. Non-trivial: the cut lies strictly inside an API call. Distinct by (program hash, cut, torn offset)."
 	st.Assumptions = append(baseAssumptions(), "process-crash model: completed system calls persist in order; torn writes only inside one Write; no reordering, no loss of directory entries (the code never syncs)", "the restarting application calls Create with the same schema before using the collection")
 	prof := c05Profile()
 	rapid.Check(t, func(rt *rapid.T) {
